@@ -12,7 +12,7 @@ from eth_hash.auto import keccak  # noqa: E402
 import props.c12 as c12  # noqa: E402
 
 ID = "C13"
-LEAN_IMPORTS = ["PyTrie.Props.C13", "PyTrie.Props.NonVacuity"]
+LEAN_IMPORTS = ["PyTrie.Props.C13", "PyTrie.Props.NonVacuity", "PyTrie.Props.NonVacuity2"]
 THEOREMS = [
     "PyTrie.Props.C13.branch_refusal",
     "PyTrie.Props.C13.branch_refusal_iff",
@@ -37,6 +37,10 @@ THEOREMS = [
     "PyTrie.Props.C13.raw_trie_nodes",
     "PyTrie.Props.C13.raw_witness",
     "PyTrie.Props.C13.raw_blank",
+    "PyTrie.Props.NonVacuity2.c13_raw_exists",
+    "PyTrie.Props.NonVacuity2.c13_raw_get_branch",
+    "PyTrie.Props.NonVacuity2.c13_raw_trie_nodes",
+    "PyTrie.Props.NonVacuity2.c13_raw_witness",
 ]
 RULE = ("binary tries built by generated histories over fixed-length and prefix-related key pools; for every pool key, its "
         "byte prefixes, extensions and bit-neighbours: get_branch (node list or InvalidKeyError), if_branch_valid on the honest "
